@@ -460,7 +460,10 @@ func (r *renderer) value(f field) string {
 		r.used["indirection"] = true
 		base := fmt.Sprintf("refProp%d", r.nprop)
 		r.m[r.spell(base)] = f.Val
-		return "${" + r.spell(base) + "}"
+		// a placeholder may be padded with blanks (a properties line with a trailing blank): the value is
+		// trimmed before it is looked at
+		pad := rapid.SampledFrom([]string{"", "", "", " ", "\t", "  "})
+		return pad.Draw(r.t, r.label+"padL") + "${" + r.spell(base) + "}" + pad.Draw(r.t, r.label+"padR")
 	}
 	return f.Val
 }
